@@ -411,3 +411,191 @@ theorem lexAll_faithful (gt : Bytes) : ∀ (items : List (Bytes × Lexeme)) (pre
       · rw [h3, hd]; simp; omega
 
 end Jomini.TextReader
+
+namespace Jomini.TextReader
+open Jomini Jomini.TextReader.Spec
+
+theorem lexeme_text_pos {lx : Lexeme} {after : Bytes} (h : lx.Valid after) : 0 < lx.text.length := by
+  cases lx with
+  | open_ => simp [Lexeme.text]
+  | close => simp [Lexeme.text]
+  | op o => cases o <;> simp [Lexeme.text, opText]
+  | scalar q b =>
+    cases q with
+    | true => simp [Lexeme.text]
+    | false =>
+      simp only [Lexeme.Valid] at h
+      obtain ⟨_, ⟨c, r0, rfl, _⟩, _⟩ := h
+      simp [Lexeme.text]
+
+theorem renderLex_length {items : List (Bytes × Lexeme)} {gt : Bytes} (h : ValidLex items gt) :
+    items.length ≤ (renderLex items gt).length := by
+  induction items with
+  | nil => simp
+  | cons it rest ih =>
+    obtain ⟨g, lx⟩ := it
+    simp only [ValidLex] at h
+    have := ih h.2.2
+    have hp := lexeme_text_pos h.2.1
+    simp [renderLex]; omega
+
+/-- an optional UTF-8 BOM in front of the rendering -/
+def bomBytes (b : Bool) : Bytes := if b then [0xef, 0xbb, 0xbf] else []
+
+/-- **`C07_slice_faithful`, lexeme level.**  For every list of lexemes with a valid reader-safe layout (gaps of blanks
+and complete comments, an optional BOM in front, trailing filler that may end in an unterminated comment), the from-slice
+reader returns exactly the lexemes' tokens — `Open` / `Close` / `Operator` / `Unquoted` / `Quoted` with the scalar
+bytes —, ends cleanly, and its final position is the length of the input.  Without a BOM the rendering itself must not
+begin with the three BOM bytes (an unquoted scalar `EF BB BF…` at offset 0 IS a BOM to the reader). -/
+theorem slice_faithful_lexemes (items : List (Bytes × Lexeme)) (gt : Bytes) (bom : Bool)
+    (hv : ValidLex items gt)
+    (hclash : bom = false → ¬∃ r', renderLex items gt = 0xef :: 0xbb :: 0xbf :: r') :
+    (sliceTokens (bomBytes bom ++ renderLex items gt)).toks = items.map (fun x => x.2.tok) ∧
+    (sliceTokens (bomBytes bom ++ renderLex items gt)).out = .end_ ∧
+    (sliceTokens (bomBytes bom ++ renderLex items gt)).final.position = (bomBytes bom ++ renderLex items gt).length := by
+  have hrel : Rel (fromSlice (bomBytes bom ++ renderLex items gt)) 0 .unknown (bomBytes bom ++ renderLex items gt) :=
+    ⟨rfl, rfl, by simp [fromSlice], by intro x hx; simp [fromSlice] at hx, fun _ => rfl⟩
+  have hlen := renderLex_length hv
+  cases bom with
+  | true =>
+    have hs : Skips ((0 : Nat) == 0) [0xef, 0xbb, 0xbf] 0 .unknown .present := .bom rfl (.nil _ _)
+    have := lexAll_faithful gt items [0xef, 0xbb, 0xbf] _ 0 .unknown .present (fuelFor (bomBytes true ++ renderLex items gt))
+      (fuelFor (bomBytes true ++ renderLex items gt)) [] (Or.inl hrel) rfl hs hv (by intro _ h; simp at h)
+      (by simp [fuelFor, bomBytes]; omega) (by simp [fuelFor, bomBytes])
+    simpa [sliceTokens, bomBytes] using this
+  | false =>
+    have hs : Skips ((0 : Nat) == 0) [] 0 .unknown .unknown := .nil _ _
+    have := lexAll_faithful gt items [] _ 0 .unknown .unknown (fuelFor (bomBytes false ++ renderLex items gt))
+      (fuelFor (bomBytes false ++ renderLex items gt)) [] (Or.inl hrel) rfl hs hv (fun _ _ _ => hclash rfl)
+      (by simp [fuelFor, bomBytes]; omega) (by simp [fuelFor, bomBytes])
+    simpa [sliceTokens, bomBytes] using this
+
+/-! ### documents: nested objects and arrays with their layout -/
+
+mutual
+/-- a value with its layout: a scalar behind a gap, or a container `g { members gc }` -/
+inductive DVal
+  | scal (g : Bytes) (quoted : Bool) (b : Bytes)
+  | cont (g : Bytes) (ms : DMembers) (gc : Bytes)
+/-- the members of a container (or of the top level): fields `g0 key g1 op value` and plain values (array elements) -/
+inductive DMembers
+  | nil
+  | field (g0 : Bytes) (kq : Bool) (key : Bytes) (g1 : Bytes) (o : Op) (v : DVal) (rest : DMembers)
+  | elem (v : DVal) (rest : DMembers)
+end
+
+mutual
+def renderV : DVal → Bytes
+  | .scal g q b => g ++ (Lexeme.scalar q b).text
+  | .cont g ms gc => g ++ (123 :: (renderM ms ++ (gc ++ [125])))
+def renderM : DMembers → Bytes
+  | .nil => []
+  | .field g0 kq key g1 o v rest => g0 ++ ((Lexeme.scalar kq key).text ++ (g1 ++ (opText o ++ (renderV v ++ renderM rest))))
+  | .elem v rest => renderV v ++ renderM rest
+end
+
+mutual
+/-- the lexeme list of a document (with the gap in front of each lexeme) -/
+def itemsV : DVal → List (Bytes × Lexeme)
+  | .scal g q b => [(g, .scalar q b)]
+  | .cont g ms gc => (g, .open_) :: (itemsM ms ++ [(gc, .close)])
+def itemsM : DMembers → List (Bytes × Lexeme)
+  | .nil => []
+  | .field g0 kq key g1 o v rest => (g0, .scalar kq key) :: (g1, .op o) :: (itemsV v ++ itemsM rest)
+  | .elem v rest => itemsV v ++ itemsM rest
+end
+
+mutual
+/-- layout validity of a value followed by `after` (reader-safe: gaps are blanks and complete comments; a scalar is valid
+in front of what follows it; `=`, `<`, `>` are not followed by `=`) -/
+def ValidV : DVal → Bytes → Prop
+  | .scal g q b, after => Gap g ∧ (Lexeme.scalar q b).Valid after
+  | .cont g ms gc, after => Gap g ∧ Gap gc ∧ ValidM ms (gc ++ 125 :: after)
+def ValidM : DMembers → Bytes → Prop
+  | .nil, _ => True
+  | .field g0 kq key g1 o v rest, after =>
+    Gap g0 ∧ Gap g1 ∧ (Lexeme.scalar kq key).Valid (g1 ++ (opText o ++ (renderV v ++ (renderM rest ++ after)))) ∧
+    (Lexeme.op o).Valid (renderV v ++ (renderM rest ++ after)) ∧
+    ValidV v (renderM rest ++ after) ∧ ValidM rest after
+  | .elem v rest, after => ValidV v (renderM rest ++ after) ∧ ValidM rest after
+end
+
+theorem renderLex_append (a b : List (Bytes × Lexeme)) (gt : Bytes) :
+    renderLex (a ++ b) gt = renderLex a (renderLex b gt) := by
+  induction a with
+  | nil => rfl
+  | cons it a ih => obtain ⟨g, lx⟩ := it; simp [renderLex, ih]
+
+mutual
+theorem renderLex_itemsV : ∀ (v : DVal) (x : Bytes), renderLex (itemsV v) x = renderV v ++ x
+  | .scal g q b, x => by simp [itemsV, renderLex, renderV]
+  | .cont g ms gc, x => by
+    simp only [itemsV, renderLex, renderV, renderLex_append, renderLex_itemsM ms]
+    simp [Lexeme.text, renderLex]
+theorem renderLex_itemsM : ∀ (ms : DMembers) (x : Bytes), renderLex (itemsM ms) x = renderM ms ++ x
+  | .nil, x => by simp [itemsM, renderLex, renderM]
+  | .field g0 kq key g1 o v rest, x => by
+    simp only [itemsM, renderLex, renderM, renderLex_append, renderLex_itemsV v, renderLex_itemsM rest]
+    simp [Lexeme.text]
+  | .elem v rest, x => by
+    simp only [itemsM, renderM, renderLex_append, renderLex_itemsV v, renderLex_itemsM rest]
+    simp
+end
+
+theorem ValidLex_append {a b : List (Bytes × Lexeme)} {gt : Bytes}
+    (ha : ∀ x, ValidLex b gt → renderLex b gt = x → ValidLex (a ++ b) gt) : True := trivial
+
+mutual
+theorem validLex_itemsV : ∀ (v : DVal) (more : List (Bytes × Lexeme)) (gt : Bytes),
+    ValidV v (renderLex more gt) → ValidLex more gt → ValidLex (itemsV v ++ more) gt
+  | .scal g q b, more, gt, h, hm => by
+    simp only [ValidV] at h
+    simp only [itemsV, List.cons_append, List.nil_append, ValidLex]
+    exact ⟨h.1, h.2, hm⟩
+  | .cont g ms gc, more, gt, h, hm => by
+    simp only [ValidV] at h
+    obtain ⟨hg, hgc, hms⟩ := h
+    simp only [itemsV, List.cons_append, List.append_assoc, List.nil_append, ValidLex, Lexeme.Valid, true_and]
+    refine ⟨hg, ?_⟩
+    have hmore' : ValidLex ((gc, Lexeme.close) :: more) gt := by
+      simp only [ValidLex, Lexeme.Valid, true_and]; exact ⟨hgc, hm⟩
+    refine validLex_itemsM ms ((gc, .close) :: more) gt ?_ hmore'
+    simpa [renderLex, Lexeme.text] using hms
+theorem validLex_itemsM : ∀ (ms : DMembers) (more : List (Bytes × Lexeme)) (gt : Bytes),
+    ValidM ms (renderLex more gt) → ValidLex more gt → ValidLex (itemsM ms ++ more) gt
+  | .nil, more, gt, _, hm => by simpa [itemsM] using hm
+  | .field g0 kq key g1 o v rest, more, gt, h, hm => by
+    simp only [ValidM] at h
+    obtain ⟨h0, h1, hk, ho, hv, hr⟩ := h
+    have hrest := validLex_itemsM rest more gt hr hm
+    have hval := validLex_itemsV v (itemsM rest ++ more) gt (by rw [renderLex_append, renderLex_itemsM]; exact hv) hrest
+    simp only [itemsM, List.cons_append, List.append_assoc, ValidLex]
+    refine ⟨h0, ?_, h1, ?_, hval⟩
+    · simpa [renderLex, renderLex_append, renderLex_itemsV, renderLex_itemsM, Lexeme.text] using hk
+    · simpa [renderLex_append, renderLex_itemsV, renderLex_itemsM] using ho
+  | .elem v rest, more, gt, h, hm => by
+    simp only [ValidM] at h
+    have hrest := validLex_itemsM rest more gt h.2 hm
+    have hval := validLex_itemsV v (itemsM rest ++ more) gt (by rw [renderLex_append, renderLex_itemsM]; exact h.1) hrest
+    simpa [itemsM] using hval
+end
+
+/-- **`C07_slice_faithful`.**  For every document `ms` (fields `key op value`, array elements, containers nested to any
+depth, scalars quoted or unquoted) and every valid reader-safe layout — gaps made of blanks (space, tab, LF, CR) and
+complete `#` comments, an optional BOM, trailing filler `gt` —, the from-slice reader over the rendering returns exactly
+the lexeme list of the document (`Open` / `Close` / `Operator` / `Unquoted` / `Quoted` with the scalar bytes), ends cleanly,
+and the final position equals the input length. -/
+theorem slice_faithful (ms : DMembers) (gt : Bytes) (bom : Bool) (hv : ValidM ms gt) (hgt : EndGap gt)
+    (hclash : bom = false → ¬∃ r', renderM ms ++ gt = 0xef :: 0xbb :: 0xbf :: r') :
+    (sliceTokens (bomBytes bom ++ (renderM ms ++ gt))).toks = (itemsM ms).map (fun x => x.2.tok) ∧
+    (sliceTokens (bomBytes bom ++ (renderM ms ++ gt))).out = .end_ ∧
+    (sliceTokens (bomBytes bom ++ (renderM ms ++ gt))).final.position = (bomBytes bom ++ (renderM ms ++ gt)).length := by
+  have hr : renderLex (itemsM ms) gt = renderM ms ++ gt := renderLex_itemsM ms gt
+  have hvl : ValidLex (itemsM ms) gt := by
+    have := validLex_itemsM ms [] gt (by simpa [renderLex] using hv) (by simpa [ValidLex] using hgt)
+    simpa using this
+  have := slice_faithful_lexemes (itemsM ms) gt bom hvl (by rw [hr]; exact hclash)
+  rw [hr] at this
+  exact this
+
+end Jomini.TextReader
